@@ -2299,6 +2299,11 @@ func AddReceivingCustomMethod[P paramsPtr[T], R Result, T any](
 
 	s.mu.Lock()
 	defer s.mu.Unlock()
-	s.receiveMethods[method] = newServerMethodInfo(typed, missingParamsOK)
+	// receivingMethodInfos hands the map to readers that consult it without
+	// holding s.mu (requests being served at this very moment): the map in
+	// use is never modified, a method is added by replacing it with a copy.
+	methods := maps.Clone(s.receiveMethods)
+	methods[method] = newServerMethodInfo(typed, missingParamsOK)
+	s.receiveMethods = methods
 	return nil
 }
